@@ -52,7 +52,24 @@ pub const WIDE_PATHS: [(&str, &str); 7] = [
     ("//a", "/a"),
     ("a/", "a/"),
 ];
-pub const TOKENS: [&[u8]; 4] = [&[0x0A], &[0x0B, 0x0C], &[], &[1, 2, 3, 4, 5, 6, 7, 8]];
+/// Tokens of every length 0..=8, among them pairs that differ in one byte
+/// only, in the first byte by the token length, and prefixes of one another.
+pub const TOKENS: [&[u8]; 14] = [
+    &[0x0A],
+    &[0x0B, 0x0C],
+    &[],
+    &[1, 2, 3, 4, 5, 6, 7, 8],
+    &[0],
+    &[0, 0],
+    &[0x0A, 0],
+    &[0x00, 0x11, 0x22, 0x33, 0x44, 0x55, 0x66, 0x77],
+    &[0x08, 0x11, 0x22, 0x33, 0x44, 0x55, 0x66, 0x77],
+    &[0x00, 0x11, 0x22, 0x33, 0x44, 0x55, 0x66, 0x76],
+    &[1, 2, 3, 4, 5, 6, 7],
+    &[1, 2, 3],
+    &[3, 2, 1],
+    &[0xFF, 0xFF, 0xFF, 0xFF],
+];
 
 fn ep_name(i: u8) -> String {
     format!("ep{i}")
@@ -781,12 +798,12 @@ pub fn run(ctx: &Ctx, rep: &mut Report, which: Which) {
         ctx,
         rep,
         "random-long-histories",
-        "random histories of up to 200 operations over 6 endpoints x 4 tokens (incl. the empty token) x 7 paths (with '/', empty, non-ASCII, a leading empty segment, a trailing slash) and limits {0,1,2,3,10,255}; compared with the model after every step; distinct by history hash",
+        "random histories of up to 200 operations over 6 endpoints x 14 tokens (every length 0..=8, near-identical pairs, prefixes) x 7 paths (with '/', empty, non-ASCII, a leading empty segment, a trailing slash) and limits {0,1,2,3,10,255}; compared with the model after every step; distinct by history hash",
         n,
         || {
             (
                 proptest::sample::select(vec![0u8, 1, 2, 3, 10, 255]),
-                proptest::collection::vec(op_strategy(6, 4, WIDE_PATHS.len() as u8), 0..200),
+                proptest::collection::vec(op_strategy(6, TOKENS.len() as u8, WIDE_PATHS.len() as u8), 0..200),
             )
                 .prop_map(|(limit, ops)| History { limit, ops, wide: true })
         },
